@@ -4,7 +4,6 @@ import (
 	"container/heap"
 	"fmt"
 	"math/rand"
-	"reflect"
 
 	"diagonal.works/b6"
 	"diagonal.works/b6/api"
@@ -237,7 +236,7 @@ func (f *filterCollection) Next() (bool, error) {
 		if !ok || err != nil {
 			return ok, err
 		}
-		frames[0].Value = reflect.ValueOf(f.i.Value())
+		frames[0].Value = api.ValueOf(f.i.Value())
 		frames[0].Expression = f.i.ValueExpression()
 		r, err := f.context.VM.CallWithArgsAndExpressions(f.context, f.f, frames[0:1])
 		if err != nil {
